@@ -461,6 +461,9 @@ _public_ int m_mod_register(const char *name, m_mod_t **mod_ref, const m_mod_hoo
         if (ret != 0) {
             return ret;
         }
+        /* on_stop() hook of the replaced module may have deregistered or finalized the context */
+        c = m_ctx();
+        M_RET_ASSERT(c && !c->finalized, -EPERM);
     }
 
     M_DEBUG("Registering module '%s'.\n", name);
